@@ -1337,6 +1337,71 @@ fn run_many(c: &ManyCase) -> Outcome {
     }
 }
 
+// ---- armor tails: every short checksum / footer line
+
+fn tail_alphabet() -> [&'static [u8]; 7] {
+    [b"A", b"=", b"/", b"z", b"-", b" ", b"\r"]
+}
+
+fn armor_tail_total() -> u64 {
+    // all strings of length 0..5 over the 7-symbol alphabet
+    (0..=5u32).map(|l| 7u64.pow(l)).sum::<u64>() * 2
+}
+
+fn armor_tail_case(idx: u64) -> (bool, Vec<u8>) {
+    let per = armor_tail_total() / 2;
+    let with_eq = idx >= per;
+    let mut i = idx % per;
+    let mut len = 0u32;
+    while i >= 7u64.pow(len) {
+        i -= 7u64.pow(len);
+        len += 1;
+    }
+    let mut out = Vec::new();
+    for _ in 0..len {
+        out.extend_from_slice(tail_alphabet()[(i % 7) as usize]);
+        i /= 7;
+    }
+    (with_eq, out)
+}
+
+fn run_armor_tail(idx: u64) -> Outcome {
+    let (with_eq, tail) = armor_tail_case(idx);
+    let mut x = b"-----BEGIN PGP MESSAGE-----\n\nyxJiAAAAAABwYXlsb2Fk\n".to_vec();
+    if with_eq {
+        x.push(b'=');
+    }
+    x.extend_from_slice(&tail);
+    x.extend_from_slice(b"\n-----END PGP MESSAGE-----\n");
+    stage_reset();
+    let r = crate::engine::guarded(|| {
+        for crc in [false, true] {
+            let mut opt = pgp::armor::DearmorOptions::default();
+            if crc {
+                opt = opt.enable_crc24_check();
+            }
+            let mut d = Dearmor::with_options(BufReader::new(&x[..]), opt);
+            let mut out = Vec::new();
+            if d.read_to_end(&mut out).is_ok() {
+                mark(11);
+            }
+        }
+        if let Ok((m, _)) = Message::from_armor(&x[..]) {
+            drain_message(m, 0);
+        }
+        if let Ok(t) = std::str::from_utf8(&x) {
+            let _ = pgp::composed::Any::from_string(t);
+        }
+    });
+    match r {
+        Ok(()) => Outcome::ok(stage_class()),
+        Err((loc, msg)) => Outcome::bad(
+            format!("C04:panic@{}:armor-tail", crate::engine::loc_file(&loc)),
+            format!("armored message whose line after the body is {:?}: panic at {loc}: {}", String::from_utf8_lossy(&[if with_eq { &b"="[..] } else { &b""[..] }, &tail[..]].concat()), msg.chars().take(120).collect::<String>()),
+        ),
+    }
+}
+
 // ---- hostile data under a text-mode signature
 
 #[derive(Clone, Debug)]
@@ -1752,6 +1817,7 @@ fn space_total(tier: Tier, space: &str) -> u64 {
         "text_signature_data" => text_data_cases(tier).len() as u64,
         "cfb_container_lengths" => cfb_len_cases(tier).len() as u64,
         "many_iterators_end" => many_cases(tier).len() as u64,
+        "armor_tail_lines" => armor_tail_total(),
         _ => 0,
     }
 }
@@ -1777,6 +1843,7 @@ fn case_json(tier: Tier, space: &str, idx: u64) -> Value {
         "text_signature_data" => json!({"index": idx, "case": format!("{:?}", text_data_cases(tier)[idx as usize])}),
         "cfb_container_lengths" => json!({"index": idx, "case": format!("{:?}", cfb_len_cases(tier)[idx as usize])}),
         "many_iterators_end" => json!({"index": idx, "case": format!("{:?}", many_cases(tier)[idx as usize])}),
+        "armor_tail_lines" => json!({"index": idx, "case": format!("{:?}", armor_tail_case(idx))}),
         _ => json!({"index": idx}),
     }
 }
@@ -1805,6 +1872,7 @@ fn run_case(tier: Tier, space: &str, idx: u64) -> Outcome {
         "text_signature_data" => run_text_data(&text_data_cases(tier)[idx as usize]),
         "cfb_container_lengths" => run_cfb_len(&cfb_len_cases(tier)[idx as usize]),
         "many_iterators_end" => run_many(&many_cases(tier)[idx as usize]),
+        "armor_tail_lines" => run_armor_tail(idx),
         _ => Outcome::trivial("unknown space"),
     }
 }
@@ -1819,7 +1887,8 @@ pub fn worker(tier: Tier, space: &str, start: u64, end: u64) -> Option<Value> {
 
 pub fn check(ctx: &Ctx) {
     let tier = ctx.tier;
-    let spaces: [(&str, &str, u64); 14] = [
+    let spaces: [(&str, &str, u64); 15] = [
+        ("armor_tail_lines", "an armored message whose line between body and END line is EVERY string of length 0..5 over {A, =, /, z, -, blank, CR}, with and without a leading '=' (checksum lines of every length and padding, stray characters): Dearmor with and without the CRC check, Message::from_armor + read, Any::from_string", 5_000),
         ("many_iterators_end", "armored key rings / secret keys / signature blocks and their binary forms, cut at EVERY offset, with one octet replaced at every offset, closed with the tail of another block type, or followed by garbage: every iterator over them (PacketParser, PacketParser over Dearmor, from_bytes_many / from_armor_many / from_string_many / from_reader_many of SignedPublicKey, SignedSecretKey, DetachedSignature, PublicOrSecret) is run to its end - it must end within input length + 8 items", 2_000),
         ("cfb_container_lengths", "valid SEIPDv1 and legacy SED containers (made by the reference model, 11 ciphers, literal of 0 / 5 (thorough 40) octets) cut to EVERY length 0..full - inside the CFB prefix, inside the data, inside the MDC - x read mode {default, Streaming, CheckFirst with a 16-octet limit}, through decrypt_the_ring with the session key + drain, and through stream_decryptor_protected", 2_000),
         ("signature_mpi_lengths", "signatures with a CORRECT digest prefix and issuer (so that verification reaches the public-key code) whose signature MPIs have every length 0..36 (P-384: 52, P-521: 70) in all (r, s) pairs (quick: full cross product around the field size, the axes elsewhere) for EdDSA-legacy, ECDSA P-256 v4/v6, P-384, P-521, secp256k1, and RSA with 0..260 octets: Signature::verify and the inline message path", 2_000),
